@@ -51,11 +51,14 @@ func validateResult(m *mimetype.MIME, err error) (bool, string, string) {
 	if perr != nil {
 		return false, "C02/unparsable", fmt.Sprintf("String() %q is rejected by mime.ParseMediaType: %v", s, perr)
 	}
-	if !c02Names()[b] {
-		return false, "C02/unregistered-type", fmt.Sprintf("type %q (from %q) is not a registered format", b, s)
+	// the type/subtype as spelled in the result (a format may have been registered
+	// through Extend under a name with capitals; it is reported as registered)
+	rb := strings.TrimSpace(bare(s))
+	if !c02Names()[rb] {
+		return false, "C02/unregistered-type", fmt.Sprintf("type %q (from %q) is not a registered format", rb, s)
 	}
-	if mimetype.Lookup(b) == nil {
-		return false, "C02/lookup-misses-type", fmt.Sprintf("Lookup(%q) is nil", b)
+	if mimetype.Lookup(rb) == nil {
+		return false, "C02/lookup-misses-type", fmt.Sprintf("Lookup(%q) is nil", rb)
 	}
 	for k, v := range ps {
 		if k != "charset" {
@@ -81,6 +84,9 @@ func validateResult(m *mimetype.MIME, err error) (bool, string, string) {
 		}
 		ps := p.String()
 		pb, pps, e := mime.ParseMediaType(ps)
+		if e == nil && strings.EqualFold(pb, ps) {
+			pb = ps // registered spelling (capitals are the registrant's choice)
+		}
 		if e != nil || len(pps) != 0 || pb != ps {
 			return false, "C02/ancestor-not-bare", fmt.Sprintf("ancestor %q of %q is not a bare valid type", ps, s)
 		}
@@ -124,6 +130,7 @@ var c02Tmp string
 func c02Eval(cs *core.Case) (bool, string, string) {
 	var m *mimetype.MIME
 	var err error
+	c02UseTree(len(cs.Ints) > 2 && cs.Ints[2] == 1)
 	setLimit(cs.Limit)
 	switch cs.Ints[0] {
 	case 0:
@@ -164,6 +171,30 @@ func c02Eval(cs *core.Case) (bool, string, string) {
 }
 
 func c02Setup(c *core.Ctx) { c.Register("c02", c02Eval) }
+
+// c02ExtTree: formats registered through the public API, two of them under
+// names with capitals (as IANA spells e.g. ...sheet.macroEnabled.12): under the
+// root (prefix "foo"), under text/plain (first non-space byte '{', so JSON-like
+// text lands on it), under zip (PK\x03\x04) and a child of that one (always).
+var c02ExtTree = []extOp{{Attach: 0, Pred: 2, Aliases: 1}, {Attach: 2, Pred: 4}, {Attach: 3, Pred: 3, Aliases: 2}, {Attach: 8, Pred: 1}}
+
+var c02Tree *treeModel
+var c02Ext bool
+
+func c02UseTree(ext bool) {
+	if ext == c02Ext && (c02Tree != nil || !ext) {
+		return
+	}
+	var h []extOp
+	if ext {
+		h = c02ExtTree
+	}
+	c02Tree = installTree(h, c02Tree)
+	c02Tree.undo() // no consultation recorder needed here
+	c02Tree.undo = nil
+	c02Ext = ext
+	c02Registered = nil
+}
 
 var sigma02 = [][]byte{
 	{'a'}, {'Z'}, {'0'}, {'-'}, {'"'}, {'\''}, {'\\'}, {';'}, {'='}, {','}, {'/'}, {'('}, {')'}, {'<'}, {'>'}, {'@'}, {':'}, {'?'}, {'['}, {']'},
@@ -259,6 +290,37 @@ func c02Run(c *core.Ctx) {
 			c.R.States++
 			try([]byte{byte(a), byte(b)}, 0, 0, 0, "a:bytes<=2")
 		}
+	}
+	// (d) the same post-condition on a tree extended through the public API
+	// (results that are, or descend from, registered extensions)
+	{
+		xs := &core.Case{Kind: "c02", Ints: []int{0, 0, 1}}
+		extra := [][]byte{[]byte("foo"), []byte("foo bar baz"), []byte(`{"a":1}`), []byte(` {"type":"Feature"}`), []byte("{ not json"), []byte("PK\x03\x04"), []byte("PK\x03\x04\x00\x00mimetype")}
+		run := func(in []byte) {
+			for _, l := range []uint32{0, 3072, 4} {
+				for entry := 0; entry < 2; entry++ {
+					xs.In, xs.Limit, xs.Ints[0] = in, l, entry
+					c.R.States++
+					c.R.Transitions++
+					c.R.Evals++
+					c.Check(xs)
+				}
+			}
+			c.SampleCase("d:extended-tree", xs)
+		}
+		for _, w := range W {
+			if len(w.Data) > 4096 || !c.Next() || c.Expired() {
+				continue
+			}
+			run(w.Data)
+		}
+		if c.Mine(2) {
+			for _, in := range extra {
+				run(in)
+				c.R.Nontrivial++
+			}
+		}
+		c02UseTree(false)
 	}
 	// (b)
 	n := 3
